@@ -2,6 +2,7 @@ package main
 
 import (
 	"fmt"
+	"go/token"
 	"go/types"
 	"sort"
 	"strings"
@@ -47,6 +48,14 @@ func (e *Exec) Run() {
 		fr.Vals[fv] = VPtr{Nil: False, Loc: &Loc{Obj: obj}, Elem: pt.Elem()}
 	}
 	if e.contract != nil {
+		for _, g := range e.contract.Ghosts {
+			parts := strings.SplitN(g, " ", 2)
+			tv, err := types.Eval(e.prog.fset, fn.Pkg.Pkg, token.NoPos, parts[1])
+			if err != nil {
+				panic(contractError{"ghostparam " + g + ": " + err.Error()})
+			}
+			e.params[parts[0]] = e.materialize("ghost_"+parts[0], tv.Type)
+		}
 		env := &Env{e: e, st: st, old: st, fr: fr, vars: map[string]Value{}, pos: false}
 		for k, v := range e.params {
 			env.vars[k] = v
@@ -149,6 +158,20 @@ func (e *Exec) checkFrame(st *State, fr *Frame, env *Env) {
 					allowedRanges = append(allowedRanges, rng{reg: s.Reg, all: true})
 				}
 			}
+			if x.Fn == "reslice" && len(x.Args) == 1 {
+				if sel, ok := x.Args[0].(*ESel); ok {
+					if l := pre.locOf(sel); l != nil && l.Obj != nil {
+						allowedLocs = append(allowedLocs, "obj:"+l.Obj.Name+":"+pathKey(l.Path))
+						was, ok1 := e.load(e.pre, l, nil).(VSlice)
+						now, ok2 := e.load(st, l, nil).(VSlice)
+						g := False
+						if ok1 && ok2 && was.Reg == now.Reg {
+							g = Eq(was.Base, now.Base)
+						}
+						e.emit(st, fmt.Sprintf("frame(reslice %s)", prettyLoc(l)), "frame", nil, g, "")
+					}
+				}
+			}
 		case *ESel:
 			base := pre.eval(x.X)
 			if vi, ok := base.(VIface); ok && vi.Obj != nil {
@@ -205,6 +228,11 @@ func (e *Exec) checkFrame(st *State, fr *Frame, env *Env) {
 			}
 			if lr, ok := e.lazyRegs[r.Name]; !ok || lr != r || r.Derived {
 				continue // allocated by this unit
+			}
+			if strings.Contains(r.Name, "~c") {
+				// region introduced by a callee contract's havoc: its
+				// modification is accounted for by the callee's own frame
+				continue
 			}
 			es, ok := elemSort(r.Elem)
 			if !ok {
